@@ -47,7 +47,13 @@ def programs(check, tier, n=None):
                                      exhaustive=True, maxchoices=5 if tier == "quick" else 6, timeout=2400)
             th, bh = syntax.generate(check, family, rootcat="toplast", rootmax=1, num=20, seed=core.seed() + 9, depth=2)
             tn, bn = syntax.generate(check, family, rootcat="nsonly", rootmax=2, num=40, seed=core.seed() + 9, depth=3)
-            for tab, bs, lay in ((table, behs, "random"), (tc, bc, "none"), (th, bh, "random"), (tn, bn, "random")):
+            # long lists (every repeatable list has 4 .. 9 items: names of many parts, long argument / parameter / use lists ...) and
+            # constructs nested in themselves (SyntaxGen's long-list and self-nesting modes)
+            tl, bl = progs.long_list_programs(check, family, core.seed(), 150 if tier == "quick" else 1500)
+            ts, bs_, _ = progs.self_nesting_programs(check, family, core.seed(), 2500 if tier == "quick" else 20000)
+            to, bo, _ = progs.nesting_operator_programs(check, family, core.seed(), 3 if tier == "quick" else 4)
+            for tab, bs, lay in ((table, behs, "random"), (tc, bc, "none"), (th, bh, "random"), (tn, bn, "random"), (tl, bl, "random"), (ts, bs_, "none"),
+                                 (to, bo, "none")):
                 ex = progs.expand_all(tab, bs, core.seed(), [lay])
                 for e in ex:
                     if e.get("skip") or ({"heredoc/empty", "nowdoc/empty"} & set(e["used"])):
